@@ -9,7 +9,11 @@ NOTE = {
  "C20": "PARTIAL: proof covers the shape-strictness clause (generic shape-check model theorems + contracts re-extracted from the source on every run); the stacked=row-by-row clause is proved per function in the other properties and validated here over the whole API; purity/determinism are validated only (a Gallina function cannot mutate its argument).",
  "C10": "Properness, axis, perpendicular turn, round trips (generic + half-turn), norm bound, Jacobian = derivative (all 27 entries, Coquelicot), Jacobian composition and dispatch are proved; PARTIAL: the derivative at |r| < eps w.r.t. the exact map and the 2.5e-5 snapping tolerance near 0 and pi are sampled by the oracle only; SVD/acos/cos/sin are trusted through stated contracts.",
  "C09": "Refinement of every listed operation (incl. the sort-based insertion and both index maps, for all sizes) and of every finite history to the list-of-points spec is proved; PARTIAL only in that immutability/aliasing (not a Gallina notion) is validated by the harness, not proved.",
- "C07": "PARTIAL: nearest/closest-point clauses proved for all inputs; sub-path clauses proved under explicit simplicity hypotheses (open polylines); one known finding (ret_t_values alone) pinned by the test-suite.",
+ "C07": "PARTIAL: nearest/closest-point clauses proved for all inputs; the sub-path clauses (sliced_at_points open/closed/wrap-around, aligned_along_subsegment decision rule) are proved under explicit hypotheses about the working polyline, with non-vacuity examples; one known finding (ret_t_values alone) pinned by the test-suite.",
+ "C11": "All clauses proved; the compose clause is proved for lists in which all matrices but the last are affine and REFUTED (known finding) for non-affine ones, where the code drops w without dividing.",
+ "C04": "All conversion clauses proved over all histories; known finding: tag names that collide with class attributes bypass the attribute protocol.",
+ "C01": "Per-face soundness, cover, orientation, area fraction, case rules and the mesh-level per-face decomposition are proved for the repaired kernel (distances snapped to the plane within the tolerance); known finding: negative (wrap-around) face indices.",
+ "C02": "Index validity, no orphans, provenance, idempotence (incl. masks), per-face complement, order/numbering invariance and empties are proved; dtypes are validated by correspondence only.",
  "C08": "Arc-length (walk spec incl. f=0, f=1, Lipschitz continuity), subdivision (minimal parts, even spacing, indices, length preserved, closedness), bisection and segment partition clauses are all proved; one known finding (subdivide_segments on a zero-length segment gives NaN rows).",
  "C19": "Round trips, rounding error, success of rounded/serialize for every unit normal and every precision, and validator soundness are proved; the json text round trip and the jsonschema library are trusted.",
  "C17": "Tightness, accessors, planes, contains, extent and percentile (linear interpolation for every q) proved for all inputs; PARTIAL only in that the 'few units of rounding at the maximum faces' clause is an IEEE-754 clause sampled by the oracle.",
